@@ -89,8 +89,10 @@ static int dump() {
 }
 
 // ------------------------------------------------------------------------------------------------ helpers
+// NaN is printed canonically (Lean's Float.toBits canonicalises it; the sign/payload of a NaN is not an observation)
+static std::string hx(double d) { return d != d ? std::string("7ff8000000000000") : hex_f64(d); }
 template<typename F> static std::string val(F f) {
-  try { return hex_f64(f()); } catch (const std::exception&) { return "throw"; }
+  try { return hx(f()); } catch (const std::exception&) { return "throw"; }
 }
 
 template<typename S> static std::string est_line(const char* tag, const S& s) {
@@ -139,8 +141,12 @@ static std::string hll_state(const hll_sketch& s) {
   memcpy(&q1, b.data() + hll_constants::KXQ1_DOUBLE, 8);
   memcpy(&nacm, b.data() + hll_constants::CUR_MIN_COUNT_INT, 4);
   const int ooo = (b[hll_constants::FLAGS_BYTE] & hll_constants::OUT_OF_ORDER_FLAG_MASK) ? 1 : 0;
-  os << "HLL " << lgk << " " << (int)b[hll_constants::HLL_CUR_MIN_BYTE] << " " << nacm << " " << hex_f64(q0) << " " << hex_f64(q1)
-     << " " << hex_f64(hip) << " " << ooo;
+  // canonical form: the estimators read (cur_min, num_at_cur_min) only through "number of untouched registers"
+  // = (cur_min == 0 ? num_at_cur_min : 0); an HLL_8 union gadget represents the same content as (0, #zeros) or, after
+  // check_rebuild_kxq_cur_min, as (true minimum, count at it).  The out-of-order image carries a stale HIP value: 0.
+  const uint32_t unhit = b[hll_constants::HLL_CUR_MIN_BYTE] == 0 ? nacm : 0;
+  os << "HLL " << lgk << " 0 " << unhit << " " << hex_f64(q0) << " " << hex_f64(q1)
+     << " " << (ooo ? std::string("0000000000000000") : hex_f64(hip)) << " " << ooo;
   return os.str();
 }
 
@@ -171,54 +177,56 @@ static std::string cpc_state(const cpc_sketch& s) {
 
 // ------------------------------------------------------------------------------------------------ step
 static std::string step(const std::vector<std::string>& w) {
-  const std::string& op = w[0];
+  const std::string& op = w.at(0);
   // ---------------- pure functions
   if (op == "bb") {
-    const unsigned long long n = U(w[1]); const double th = vh::f64_of_hex(w[2]); const unsigned k = (unsigned)I(w[3]);
+    const unsigned long long n = U(w.at(1)); const double th = vh::f64_of_hex(w.at(2)); const unsigned k = (unsigned)I(w.at(3));
     return "B " + val([&] { return binomial_bounds::get_lower_bound(n, th, k); }) + " " + val([&] { return binomial_bounds::get_upper_bound(n, th, k); });
   }
   if (op == "relerr") {
-    return "R " + val([&] { return hll_sketch::get_rel_err(I(w[1]) != 0, I(w[2]) != 0, (uint8_t)I(w[3]), (uint8_t)I(w[4])); });
+    return "R " + val([&] { return hll_sketch::get_rel_err(I(w.at(1)) != 0, I(w.at(2)) != 0, (uint8_t)I(w.at(3)), (uint8_t)I(w.at(4))); });
   }
   if (op == "hreg") {
-    const int lgk = I(w[1]);
+    const int lgk = I(w.at(1));
     if (lgk < 4 || lgk > 21) throw std::runtime_error("lgk");
     const size_t arr = (size_t)1 << (lgk - 1);     // HLL_4: k/2 bytes
     std::vector<uint8_t> img(hll_constants::HLL_BYTE_ARR_START + arr, 0);
     img[0] = hll_constants::HLL_PREINTS; img[1] = hll_constants::SER_VER; img[2] = hll_constants::FAMILY_ID; img[3] = (uint8_t)lgk;
-    img[4] = 0; img[5] = I(w[7]) ? hll_constants::OUT_OF_ORDER_FLAG_MASK : 0; img[6] = (uint8_t)I(w[2]); img[7] = 2; // HLL mode, HLL_4
-    const double q0 = vh::f64_of_hex(w[4]), q1 = vh::f64_of_hex(w[5]), hip = vh::f64_of_hex(w[6]);
-    const uint32_t nacm = (uint32_t)U(w[3]), aux = 0;
+    img[4] = 0; img[5] = I(w.at(7)) ? hll_constants::OUT_OF_ORDER_FLAG_MASK : 0; img[6] = (uint8_t)I(w.at(2)); img[7] = 2; // HLL mode, HLL_4
+    const double q0 = vh::f64_of_hex(w.at(4)), q1 = vh::f64_of_hex(w.at(5)), hip = vh::f64_of_hex(w.at(6));
+    const uint32_t nacm = (uint32_t)U(w.at(3)), aux = 0;
     memcpy(&img[hll_constants::HIP_ACCUM_DOUBLE], &hip, 8); memcpy(&img[hll_constants::KXQ0_DOUBLE], &q0, 8);
     memcpy(&img[hll_constants::KXQ1_DOUBLE], &q1, 8); memcpy(&img[hll_constants::CUR_MIN_COUNT_INT], &nacm, 4);
     memcpy(&img[hll_constants::AUX_COUNT_INT], &aux, 4);
     hll_sketch s = hll_sketch::deserialize(img.data(), img.size());
     return hll_line(s);
   }
-  if (op == "cubic") { const double x = vh::f64_of_hex(w[1]); return "C " + val([&] { return CubicInterpolation<AL>::usingXAndYTables(x); }); }
-  if (op == "bitmap") { return "M " + val([&] { return HarmonicNumbers<AL>::getBitMapEstimate(I(w[1]), I(w[2])); }); }
-  if (op == "icon") { return "I " + val([&] { return compute_icon_estimate((uint8_t)I(w[1]), (uint32_t)U(w[2])); }); }
+  if (op == "cubic") { const double x = vh::f64_of_hex(w.at(1)); return "C " + val([&] { return CubicInterpolation<AL>::usingXAndYTables(x); }); }
+  if (op == "bitmap") { return "M " + val([&] { return HarmonicNumbers<AL>::getBitMapEstimate(I(w.at(1)), I(w.at(2))); }); }
+  if (op == "icon") { return "I " + val([&] { return compute_icon_estimate((uint8_t)I(w.at(1)), (uint32_t)U(w.at(2))); }); }
 
   // ---------------- theta
   if (op == "tnew") {
-    auto b = update_theta_sketch::builder(); b.set_lg_k((uint8_t)I(w[2])).set_p(vh::f32_of_hex(w[3]));
-    TObj o; o.upd.reset(new update_theta_sketch(b.build())); tobjs[I(w[1])] = std::move(o); return "ok";
+    auto b = update_theta_sketch::builder(); b.set_lg_k((uint8_t)I(w.at(2))).set_p(vh::f32_of_hex(w.at(3)));
+    TObj o; o.upd.reset(new update_theta_sketch(b.build())); tobjs[I(w.at(1))] = std::move(o); return "ok";
   }
   if (op == "tupd") {
-    auto& o = need(tobjs, I(w[1])); if (!o.upd) throw std::runtime_error("not updatable");
-    const uint64_t a = U(w[2]), n = U(w[3]); for (uint64_t i = 0; i < n; ++i) o.upd->update(a + i); return "ok";
+    auto& o = need(tobjs, I(w.at(1))); if (!o.upd) throw std::runtime_error("not updatable");
+    const uint64_t a = U(w.at(2)), n = U(w.at(3)); for (uint64_t i = 0; i < n; ++i) o.upd->update(a + i); return "ok";
   }
-  if (op == "tcompact") { TObj o; o.cmp.reset(new compact_theta_sketch(need(tobjs, I(w[1])).sk(), I(w[3]) != 0)); tobjs[I(w[2])] = std::move(o); return "ok"; }
+  if (op == "tcompact") { TObj o; o.cmp.reset(new compact_theta_sketch(need(tobjs, I(w.at(1))).sk(), I(w.at(3)) != 0)); tobjs[I(w.at(2))] = std::move(o); return "ok"; }
   if (op == "tunion" || op == "tinter" || op == "tanotb") {
-    const theta_sketch& a = need(tobjs, I(w[3])).sk(); const theta_sketch& b = need(tobjs, I(w[4])).sk();
+    // tunion dst lgk a b | tinter dst a b | tanotb dst a b
+    const size_t ia = op == "tunion" ? 3 : 2;
+    const theta_sketch& a = need(tobjs, I(w.at(ia))).sk(); const theta_sketch& b = need(tobjs, I(w.at(ia + 1))).sk();
     TObj o;
-    if (op == "tunion") { auto u = theta_union::builder().set_lg_k((uint8_t)I(w[2])).build(); u.update(a); u.update(b); o.cmp.reset(new compact_theta_sketch(u.get_result())); }
+    if (op == "tunion") { auto u = theta_union::builder().set_lg_k((uint8_t)I(w.at(2))).build(); u.update(a); u.update(b); o.cmp.reset(new compact_theta_sketch(u.get_result())); }
     else if (op == "tinter") { theta_intersection x; x.update(a); x.update(b); o.cmp.reset(new compact_theta_sketch(x.get_result())); }
     else { theta_a_not_b x; o.cmp.reset(new compact_theta_sketch(x.compute(a, b))); }
-    tobjs[I(w[1])] = std::move(o); return "ok";
+    tobjs[I(w.at(1))] = std::move(o); return "ok";
   }
   if (op == "tobs") {
-    const theta_sketch& s = need(tobjs, I(w[1])).sk();
+    const theta_sketch& s = need(tobjs, I(w.at(1))).sk();
     std::ostringstream st; st << s.get_theta64() << " " << s.get_num_retained() << " " << (s.is_empty() ? 1 : 0);
     if (w.size() == 2) return "S " + st.str();
     if (join_from(w, 2) != st.str()) return "state-mismatch " + st.str();
@@ -226,25 +234,25 @@ static std::string step(const std::vector<std::string>& w) {
   }
   // ---------------- tuple
   if (op == "unew") {
-    auto b = utuple::builder(); b.set_lg_k((uint8_t)I(w[2])).set_p(vh::f32_of_hex(w[3]));
-    UObj o; o.upd.reset(new utuple(b.build())); uobjs[I(w[1])] = std::move(o); return "ok";
+    auto b = utuple::builder(); b.set_lg_k((uint8_t)I(w.at(2))).set_p(vh::f32_of_hex(w.at(3)));
+    UObj o; o.upd.reset(new utuple(b.build())); uobjs[I(w.at(1))] = std::move(o); return "ok";
   }
   if (op == "uupd") {
-    auto& o = need(uobjs, I(w[1])); if (!o.upd) throw std::runtime_error("not updatable");
-    const uint64_t a = U(w[2]), n = U(w[3]); for (uint64_t i = 0; i < n; ++i) o.upd->update(a + i, 1.0); return "ok";
+    auto& o = need(uobjs, I(w.at(1))); if (!o.upd) throw std::runtime_error("not updatable");
+    const uint64_t a = U(w.at(2)), n = U(w.at(3)); for (uint64_t i = 0; i < n; ++i) o.upd->update(a + i, 1.0); return "ok";
   }
-  if (op == "ucompact") { UObj o; o.cmp.reset(new ctuple(need(uobjs, I(w[1])).sk(), I(w[3]) != 0)); uobjs[I(w[2])] = std::move(o); return "ok"; }
+  if (op == "ucompact") { UObj o; o.cmp.reset(new ctuple(need(uobjs, I(w.at(1))).sk(), I(w.at(3)) != 0)); uobjs[I(w.at(2))] = std::move(o); return "ok"; }
   if (op == "uunion") {
-    auto u = tuple_union<double>::builder().set_lg_k((uint8_t)I(w[2])).build();
-    u.update(need(uobjs, I(w[3])).sk()); u.update(need(uobjs, I(w[4])).sk());
-    UObj o; o.cmp.reset(new ctuple(u.get_result())); uobjs[I(w[1])] = std::move(o); return "ok";
+    auto u = tuple_union<double>::builder().set_lg_k((uint8_t)I(w.at(2))).build();
+    u.update(need(uobjs, I(w.at(3))).sk()); u.update(need(uobjs, I(w.at(4))).sk());
+    UObj o; o.cmp.reset(new ctuple(u.get_result())); uobjs[I(w.at(1))] = std::move(o); return "ok";
   }
   if (op == "uobs") {
-    const auto& s = need(uobjs, I(w[1])).sk();
+    const auto& s = need(uobjs, I(w.at(1))).sk();
     std::ostringstream st; st << s.get_theta64() << " " << s.get_num_retained() << " " << (s.is_empty() ? 1 : 0);
     if (w.size() == 2) return "S " + st.str();
-    if (w.size() != 6 || w[2] + " " + w[3] + " " + w[4] != st.str()) return "state-mismatch " + st.str();
-    const uint32_t sub = (uint32_t)U(w[5]);
+    if (w.size() != 6 || w.at(2) + " " + w.at(3) + " " + w.at(4) != st.str()) return "state-mismatch " + st.str();
+    const uint32_t sub = (uint32_t)U(w.at(5));
     std::ostringstream os; os << est_line("U", s);
     for (unsigned k = 1; k <= 3; ++k) os << " " << val([&] { return s.get_lower_bound((uint8_t)k, sub); });
     for (unsigned k = 1; k <= 3; ++k) os << " " << val([&] { return s.get_upper_bound((uint8_t)k, sub); });
@@ -252,41 +260,42 @@ static std::string step(const std::vector<std::string>& w) {
   }
   // ---------------- hll
   if (op == "hnew") {
-    const int t = I(w[3]); HObj o; o.sk.reset(new hll_sketch((uint8_t)I(w[2]), t == 4 ? HLL_4 : t == 6 ? HLL_6 : HLL_8));
-    hobjs[I(w[1])] = std::move(o); return "ok";
+    const int t = I(w.at(3)); const bool full = w.size() > 4 && I(w.at(4)) != 0;      // hnew id lgk type [start_full_size]
+    HObj o; o.sk.reset(new hll_sketch((uint8_t)I(w.at(2)), t == 4 ? HLL_4 : t == 6 ? HLL_6 : HLL_8, full));
+    hobjs[I(w.at(1))] = std::move(o); return "ok";
   }
   if (op == "hupd") {
-    auto& o = need(hobjs, I(w[1])); const uint64_t a = U(w[2]), n = U(w[3]);
+    auto& o = need(hobjs, I(w.at(1))); const uint64_t a = U(w.at(2)), n = U(w.at(3));
     if (o.sk) for (uint64_t i = 0; i < n; ++i) o.sk->update(a + i); else for (uint64_t i = 0; i < n; ++i) o.un->update(a + i);
     return "ok";
   }
   if (op == "hunion") {         // hunion dst lgmaxk src...   (dst = union object)
-    HObj o; o.un.reset(new hll_union((uint8_t)I(w[2])));
+    HObj o; o.un.reset(new hll_union((uint8_t)I(w.at(2))));
     for (size_t i = 3; i < w.size(); ++i) { auto& s = need(hobjs, I(w[i])); if (s.sk) o.un->update(*s.sk); else o.un->update(s.un->get_result(HLL_8)); }
-    hobjs[I(w[1])] = std::move(o); return "ok";
+    hobjs[I(w.at(1))] = std::move(o); return "ok";
   }
   if (op == "hresult") {        // hresult dst union type
-    auto& u = need(hobjs, I(w[2])); if (!u.un) throw std::runtime_error("not a union");
-    const int t = I(w[3]); HObj o; o.sk.reset(new hll_sketch(u.un->get_result(t == 4 ? HLL_4 : t == 6 ? HLL_6 : HLL_8)));
-    hobjs[I(w[1])] = std::move(o); return "ok";
+    auto& u = need(hobjs, I(w.at(2))); if (!u.un) throw std::runtime_error("not a union");
+    const int t = I(w.at(3)); HObj o; o.sk.reset(new hll_sketch(u.un->get_result(t == 4 ? HLL_4 : t == 6 ? HLL_6 : HLL_8)));
+    hobjs[I(w.at(1))] = std::move(o); return "ok";
   }
   if (op == "hobs") {
-    auto& o = need(hobjs, I(w[1]));
+    auto& o = need(hobjs, I(w.at(1)));
     const std::string st = o.sk ? hll_state(*o.sk) : hll_state(o.un->get_result(HLL_8));
     if (w.size() == 2) return "S " + st;
     if (join_from(w, 2) != st) return "state-mismatch " + st;
     return o.sk ? hll_line(*o.sk) : hll_line(*o.un);
   }
   // ---------------- cpc
-  if (op == "cnew") { cobjs[I(w[1])].reset(new cpc_sketch((uint8_t)I(w[2]))); return "ok"; }
-  if (op == "cupd") { auto& s = need(cobjs, I(w[1])); const uint64_t a = U(w[2]), n = U(w[3]); for (uint64_t i = 0; i < n; ++i) s->update(a + i); return "ok"; }
+  if (op == "cnew") { cobjs[I(w.at(1))].reset(new cpc_sketch((uint8_t)I(w.at(2)))); return "ok"; }
+  if (op == "cupd") { auto& s = need(cobjs, I(w.at(1))); const uint64_t a = U(w.at(2)), n = U(w.at(3)); for (uint64_t i = 0; i < n; ++i) s->update(a + i); return "ok"; }
   if (op == "cunion") {
-    cpc_union u((uint8_t)I(w[2]));
+    cpc_union u((uint8_t)I(w.at(2)));
     for (size_t i = 3; i < w.size(); ++i) u.update(*need(cobjs, I(w[i])));
-    cobjs[I(w[1])].reset(new cpc_sketch(u.get_result())); return "ok";
+    cobjs[I(w.at(1))].reset(new cpc_sketch(u.get_result())); return "ok";
   }
   if (op == "cobs") {
-    auto& s = need(cobjs, I(w[1]));
+    auto& s = need(cobjs, I(w.at(1)));
     const std::string st = cpc_state(*s);
     if (w.size() == 2) return "S " + st;
     if (join_from(w, 2) != st) return "state-mismatch " + st;
